@@ -24,6 +24,7 @@
 #include "opus_projection.h"
 #include "mapping_matrix.h"
 
+#define MSBUF (1u << 20)   /* >= 24 streams x 49 frames x 600 bytes + headers, and 255 x 2 x 600 */
 static const int RATES[5] = {8000, 12000, 16000, 24000, 48000};
 static void *bigbuf; /* room for any encoder/decoder state */
 #define BIGSZ (96u << 20)
@@ -240,6 +241,7 @@ static long gen_ms(vrng *r, int nb, unsigned char *o, long *offs)
    long n = 0;
    static const int maxcnt[6] = {48, 24, 12, 6, 3, 2};
    count = vchance(r, 60) ? 1 : (vchance(r, 60) ? 2 : vrange(r, 1, maxcnt[dur] + (vchance(r, 10) ? 1 : 0)));
+   if (nb > 24 && count > 2) count = 2;   /* keeps the packet below MSBUF (255 streams x 2 frames x <600 bytes) */
    for (s = 0; s < nb; s++) {
       int d = dur, c = count;
       if (vchance(r, 4)) { d = vbelow(r, 6); c = vrange(r, 1, 3); }   /* unequal duration */
@@ -274,7 +276,7 @@ static void do_msvalidate(int nb, int Fs, const unsigned char *buf, long n)
 
 static void run_msval(uint64_t seed, long cases)
 {
-   static unsigned char buf[400000];
+   static unsigned char buf[MSBUF];
    vrng r; long c; r.s = seed;
    for (c = 0; c < cases; c++) {
       int nb = vchance(&r, 85) ? vrange(&r, 1, 5) : vrange(&r, 1, 24);
@@ -314,7 +316,7 @@ static void log_copy(void *dst, int dst_stride, int dst_channel, const opus_res 
 
 static void run_route(uint64_t seed, long cases)
 {
-   static unsigned char buf[400000];
+   static unsigned char buf[MSBUF];
    static long offs[300];
    vrng r; long c; r.s = seed;
    for (c = 0; c < cases; c++) {
